@@ -597,7 +597,7 @@ def sessions(ctx, report):
             raise Machinery('vacuous: no generated history of MC_OpsSession_quick.cfg contains a call of the form %s' % need)
     if ctx.quick:
         s2c_sessions(ctx, report, snaps, 1200, 'two-calls')
-        s2c_sessions(ctx, report, edit_sessions(ctx, 'MC_OpsSession_edits.cfg', 300, 7), 0, 'edited-in-place')
+        s2c_sessions(ctx, report, edit_sessions(ctx, 'MC_OpsSession_edits.cfg', 200, 7), 0, 'edited-in-place')
         c2s_sessions(ctx, report, 300)
     else:
         s2c_sessions(ctx, report, snaps, 0, 'two-calls')
@@ -608,7 +608,7 @@ def sessions(ctx, report):
         s2c_sessions(ctx, report, ctx.generate('MC_OpsSession', 'MC_OpsSession_gen3.cfg'), 8000, 'call-caller-probe')
         ctx.mc('MC_OpsSession', 'MC_OpsSession_edits3.cfg', coverage=False)      # (the actions of the other configurations are switched off here)
         s2c_sessions(ctx, report, edit_sessions(ctx, 'MC_OpsSession_edits.cfg', 2500, 7), 0, 'edited-in-place')
-        s2c_sessions(ctx, report, edit_sessions(ctx, 'MC_OpsSession_sim.cfg', 400, 8, need=False), 0, 'simulated')
+        s2c_sessions(ctx, report, edit_sessions(ctx, 'MC_OpsSession_sim.cfg', 300, 8, need=False), 0, 'simulated')
         c2s_sessions(ctx, report, 3000)
 
 
@@ -626,14 +626,14 @@ def edit_sessions(ctx, cfg, n, depth, need=True):
         for k in range(1, len(steps)):
             if steps[k]['act'] == 'call' and steps[k - 1]['act'] in EDITS:
                 c = steps[k]['c']
-                taken.add((steps[k - 1]['act'], family(c['op'])))
-                taken.add((steps[k - 1]['act'], 'join=' + c['join']))
-                taken.add((steps[k - 1]['act'], 'cols=' + c['cols']))
+                taken.add((steps[k - 1]['act'], 'call'))
+                taken |= {('*', family(c['op'])), ('*', 'join=' + c['join']), ('*', 'cols=' + c['cols']), ('*', 'method=' + ('none' if c['m'] == 'none' else 'some'))}
                 if c['a']['r'] == 'o' and c['b']['r'] == 'o' and c['a']['i'] != c['b']['i']:
                     taken.add((steps[k - 1]['act'], 'two-objects'))
-    missing = [(e, f) for e in EDITS for f in ('arith', 'cmp', 'minmax', 'agg', 'join=ij', 'join=oj', 'cols=ij', 'cols=oj', 'two-objects') if (e, f) not in taken]
+    wanted = [(e, f) for e in EDITS for f in ('call', 'two-objects')] + [('*', f) for f in ('arith', 'cmp', 'minmax', 'agg', 'join=ij', 'join=oj', 'cols=ij', 'cols=oj', 'method=none', 'method=some')]
+    missing = [w for w in wanted if w not in taken]
     if need and missing:
-        raise Machinery('vacuous: no simulated history of %s has a call of kind %s right after the in-place edit' % (cfg, missing[:6]))
+        raise Machinery('vacuous: no simulated history of %s has, right after an in-place edit, a call of kind %s' % (cfg, missing[:6]))
     return hists
 
 
@@ -664,7 +664,7 @@ def run(ctx):
                 'Trace_OpsSession. A session counts when every step was explained; distinct by (policies, heap, history). '
                 'Edited-in-place sessions: TLC-simulated histories call ; shape-keeping edit of an operand (shift / restamp / rename / reorder / '
                 'pokes) ; same call, ring operator, other policy or fill method on the same objects - every edit kind must be followed by '
-                'a call of every operator family, both index and both column policies and a call on two plain objects (else exit 2). '
+                'a call on two plain objects, and the calls after edits must cover every operator family, both index and both column policies (else exit 2). '
                 'Fill methods: TLC-enumerated pairs x operator x policies x {ffill, bfill, 0, 1}, == with OpsLaw!OpsOutcomes.')
     report = Reporter(ctx)
     ctx.exhaustive = True
